@@ -53,7 +53,7 @@ def judge (op : List String) (go : String) : Verdict :=
     | none => .skip "unparsable-fired"
     | some fired =>
       let esc := kv go "esc"; let res := kv go "res"; let ext := kv go "ext"; let sent := kv go "sent"
-      let cls := kv go "class"; let dep := kv go "dep"
+      let dep := kv go "dep"
       let nFaults := faults.length / 3
       -- model
       let modes := fired.map (·.mode)
@@ -78,9 +78,7 @@ def judge (op : List String) (go : String) : Verdict :=
           -- the result still carries a host failure
           .ok ("!nt" :: "later-failure-replaced-first" :: tags)
         else if sent != f.tag || ext != "1" then
-          let c := if engine == "vm" && f.method == "GetOrLoadProgram" && f.mode == .err && cls == "user"
-                   then "vm-type-load-drops-host-error" else "sentinel-lost"
-          .violation c ("an external error carrying " ++ f.tag) tags
+          .violation "sentinel-lost" ("an external error carrying " ++ f.tag) tags
         else if gstr == mstr then .ok ("!nt" :: "propagated" :: tags)
         else if fired.any (fun g => g.frame == "pk") then .ok ("!nt" :: "later-failure-replaced-first" :: tags)
         else .modelDiff mstr tags
